@@ -898,10 +898,14 @@ def gen_fail(rng, m, prof):
                     for t in r[1:]:
                         if t[:2] not in ("VN", "TS"):
                             seen.setdefault(t[:2], []).append(t[3])
-            once = sorted(n for n, d in seen.items() if len(d) == 1)
+            once = sorted(n for n, d in seen.items() if len(set(d)) == 1)
             if not once:
                 return ["add", "H\taa:i:%d" % rng.randint(1, 3)], "add:H"
-            n = rng.choice(once)
+            multi = [x for x in once if len(seen[x]) >= 2]
+            n = rng.choice(multi) if multi and rng.chance(0.6) else rng.choice(once)
+            if (not multi and rng.chance(0.7)) or (len(seen[n]) < 3 and rng.chance(0.25)):
+                # one more definition of the same datatype first: the stored value becomes an array of values
+                return ["add", "H\t%s:%s:%s" % (n, seen[n][0], "9" if seen[n][0] == "i" else "more")], "add:H"
             bad = "%s:Z:foo" % n if seen[n][0] != "Z" else "%s:i:7" % n
             c = ["H\tqq:Z:hello\tbq:i:12\t" + bad, "H\tqr:i:1\t" + bad, "H\t" + bad, "H\t" + bad + "\tqs:i:2"]
             return ["add", rng.choice(c)], "fail:header-dt"
@@ -919,6 +923,22 @@ def gen_fail(rng, m, prof):
             if rng.chance(0.3):
                 lst.append("%s+" % rng.choice(segs))
             return ["add", "P\t%s\t%s\t*" % (free, ",".join(lst))], "fail:path-nonsegment"
+        if k == "path-short-overlaps":
+            # a path whose overlap list is too short for its segments, handed over as a Line object built at vlevel 0
+            # (the string form is refused while the line is parsed; the object is refused when it is connected)
+            if v != "gfa1":
+                continue
+            free = _unused(rng, m, PATH_IDS)
+            segs = m.ids_of("S")
+            if not free or len(segs) < 1:
+                continue
+            nseg = rng.randint(3, 6)
+            lst = ["%s%s" % (rng.choice(segs + SEGS), rng.choice("+-")) for _ in range(nseg)]
+            novl = rng.randint(1, nseg - 2)
+            ovl = ",".join(rng.choice(["3M", "5M", "*", "2M1D"]) for _ in range(novl))
+            if ovl == "*":
+                ovl = "3M"
+            return ["addline0", "P\t%s\t%s\t%s" % (free, ",".join(lst), ovl)], "fail:path-short-overlaps"
         if k == "placeholder-def-nonsegment":
             # the definition of an identifier that so far is only mentioned (a placeholder exists) and that uses,
             # where a segment is expected, the identifier of a line that is not a segment
@@ -1096,7 +1116,7 @@ def _closing_steps(rng, m):
 
 
 # calls that the library refuses at the validation level they are generated for, but that the text model would apply
-NOAPPLY = {"fail:header-dt", "fail:rename-invalid"}
+NOAPPLY = {"fail:header-dt", "fail:rename-invalid", "fail:path-short-overlaps"}
 
 
 def gen_history(rng, v, nsteps, prof, max_total=None):
@@ -1210,6 +1230,9 @@ def apply_step(g, step, line=None):
     op = step[0]
     if op == "add":
         return lib.outcome(g.add_line, step[1])
+    if op == "addline0":
+        gfapy = lib.import_gfapy()
+        return lib.outcome(lambda: g.add_line(gfapy.Line(step[1], vlevel=0, version=g.version)))
     if op == "rm":
         return lib.outcome(g.rm, step[1])
     if line is None:
@@ -1245,9 +1268,9 @@ def text_lines(g):
 
 def step_kind(step):
     """short stable name of a step for signatures: add-S, rm, rename, ..."""
-    if step[0] == "add":
+    if step[0] in ("add", "addline0"):
         t = step[1]
-        return "add-" + (t[0] if t and (t[0].isalpha() or t[0] == "#") else "x")
+        return ("add-" if step[0] == "add" else "addobj-") + (t[0] if t and (t[0].isalpha() or t[0] == "#") else "x")
     if step[0] == "rmline":
         return "rmline-" + step[1]
     return step[0]
